@@ -17,18 +17,18 @@ const hugeBudget = int64(1) << 40
 const refCap = 60000 // reference runs longer than this are discarded
 
 type LimitsCase struct {
-	Mode    string  `json:"mode"` // "general" | "phys" | "nest" | "tail" | "macro" | "meter"
-	Knobs   Knobs   `json:"knobs"`
-	Forms   []*Node `json:"forms"`
-	Forms2  []*Node `json:"forms2,omitempty"`
-	Budgets []int64 `json:"budgets,omitempty"` // explicit budgets; empty with Sweep = every n in [1,N+2]
-	Cancels []int64 `json:"cancels,omitempty"`
-	Sweep   bool    `json:"sweep,omitempty"`
+	Mode    string   `json:"mode"` // "general" | "phys" | "nest" | "tail" | "macro" | "meter"
+	Knobs   Knobs    `json:"knobs"`
+	Forms   []*Node  `json:"forms"`
+	Forms2  []*Node  `json:"forms2,omitempty"`
+	Budgets []int64  `json:"budgets,omitempty"` // explicit budgets; empty with Sweep = every n in [1,N+2]
+	Cancels []int64  `json:"cancels,omitempty"`
+	Sweep   bool     `json:"sweep,omitempty"`
 	Picks   []uint64 `json:"picks,omitempty"` // sampled placements, reduced modulo N / polls at run time
 	// structural modes
-	Depth  int `json:"depth,omitempty"`  // recursion depth / nesting depth / loop turns / expansions
-	MaxLim int `json:"max_lim,omitempty"` // sweep the limit over [1,MaxLim]
-	Caught bool `json:"caught,omitempty"` // program wraps the overflow in handler-bind
+	Depth  int  `json:"depth,omitempty"`   // recursion depth / nesting depth / loop turns / expansions
+	MaxLim int  `json:"max_lim,omitempty"` // sweep the limit over [1,MaxLim]
+	Caught bool `json:"caught,omitempty"`  // program wraps the overflow in handler-bind
 
 	hintBudget int64
 	hintCancel int64
